@@ -265,6 +265,70 @@ def _native_zero(word, axes):
   return {'reproduced': bool(bad), 'stack': word, 'non_finite_gradients': bad}
 
 
+def contact_kernel_defined(pipeline):
+  """the epsilon-guarded denominators of the contact kernels (1e-6 + |v_t|, i_mass + ang, w1 + w2 + 1e-6, count + 1e-8): the derivative program of the contact resolution with respect
+  to the body state is defined for every contact, including zero tangential velocity and zero penetration"""
+  def body(A):
+    import z3
+    from verif.engine.opaque import cut
+    from verif.contracts import C04, C06, cuts, physsys
+    from brax.base import Transform, Motion
+    import brax.contact as bc
+    xml = '<mujoco><worldbody><body name="a" pos="0 0 0.09"><freejoint/><geom size="0.1"/></body></worldbody></mujoco>'
+    sys = physsys.load(xml)
+    st, raw = C04.sym_pipeline_state(A, sys, pipeline)
+    c = C06.sym_contact(A, 1, link_idx=(np.array([-1]), np.array([0])))
+    m = raw['mass'][0]
+    pre = list(c.pre) + [m > 0]
+    tp, tv, ta = A.arr('tp', (1, 3)), A.arr('tv', (1, 3)), A.arr('ta', (1, 3))          # tangent direction (body position, linear and angular velocity)
+    I = Interp(A)
+    if pipeline == 'spring':
+      from brax.spring import collisions
+      real_get = bc.get
+      # inverse inertia: some positive semi-definite matrix L L^T
+      L = [[A.var('L%d%d' % (i, j)) if j <= i else 0 for j in range(3)] for i in range(3)]
+      iinv = np.empty((1, 3, 3), dtype=object)
+      for i in range(3):
+        for j in range(3):
+          iinv[0, i, j] = sum(L[i][k] * L[j][k] for k in range(3))
+      st = st.replace(i_inv=Sym(iinv))
+      dt = A.var('dt')
+      sys2 = sys.replace(opt=sys.opt.replace(timestep=Sym(dt)))
+      pre.append(dt > 0)
+
+      def f(ss_, s_, cc, pos, vel, ang):
+        s2 = s_.replace(x_i=s_.x_i.replace(pos=pos), xd_i=Motion(ang=ang, vel=vel))
+        bc.get = lambda sys_, x_: cc
+        try:
+          o = collisions.resolve(ss_, s2)
+        finally:
+          bc.get = real_get
+        return o.vel, o.ang
+      sym_call(I, lambda ss_, s_, cc, p, v, a, dp, dv, da: jax.jvp(lambda p_, v_, a_: f(ss_, s_, cc, p_, v_, a_), (p, v, a), (dp, dv, da)),
+               sys2, st, c.obj, st.x_i.pos, st.xd_i.vel, st.xd_i.ang, Sym(tp), Sym(tv), Sym(ta))
+    else:
+      from brax.positional import collisions
+      sysm = C04.with_sym_mass(sys, raw['mass'])
+      prev = Transform(pos=Sym(A.arr('pp', (1, 3))), rot=Sym(A.arr('pr', (1, 4))))
+      H = {'brax.com:inv_inertia': cuts.psd_handler('inv_inertia')}
+
+      def f(ss_, s_, pv, cc, pos):
+        s2 = s_.replace(x_i=s_.x_i.replace(pos=pos))
+        x_new, dl = collisions.resolve_position(ss_, s2, pv, cc)
+        return x_new.pos, dl
+      with cut('brax.com:inv_inertia'):
+        I = Interp(A, cuts=H)
+        sym_call(I, lambda ss_, s_, pv, cc, p, dp: jax.jvp(lambda p_: f(ss_, s_, pv, cc, p_), (p,), (dp,)), sysm, st, prev, c.obj, st.x_i.pos, Sym(tp))
+    if I.concrete_nans:
+      return [], [False]
+    goal = [cnd for _, cnd in A.side]
+    return pre, (goal or [True])
+  fn = {'spring': 'brax.spring.collisions:resolve', 'positional': 'brax.positional.collisions:resolve_position'}[pipeline]
+  return smt_custom('C03/%s/jvp_defined' % fn.replace('brax.', '').replace(':', '.'), fn, 'world--body contact, ANY contact geometry, state, positive mass and positive semi-definite inverse inertia: in the '
+                    'forward-mode derivative of the contact resolution with respect to the body state every denominator is non-zero and every radicand non-negative (the epsilon guards of the '
+                    'contact kernels), zero tangential velocity and zero penetration included', body, timeout=200, budget=1500, abstract=True, split_first=True, kind='attempted', tiers=('thorough',))
+
+
 def _native_grad_helper(which):
   from brax import math
   bad = []
@@ -413,6 +477,7 @@ def obligations(tier):
       jvp_defined('com.inv_inertia', _g_inv_inertia, {'p': (1, 3), 'r': (1, 4)}, units=('r',)),
   ]
 
+  obs += [contact_kernel_defined('spring'), contact_kernel_defined('positional')]
   for w_ in WORDS:
     obs.append(zero_angle_defined(w_, 'xyz'))
   for w_ in ('sss', 'hhh', 'shs', 'hh', 'hs'):
